@@ -69,7 +69,7 @@ def plan(tier, seed):
 
 
 def mandatory(tier):
-    return [f"op/{o}" for o in OPS] + ["chain", "type/ImageBatch", "type/Image", "type/FlowFields", "type/FlowField", "narrow/negative_dim", "compared_samples", "pyramid/align_corners=None", "pyramid/align_corners=True", "pyramid/align_corners=False", "pyramid/spacing"]
+    return [f"op/{o}" for o in OPS] + ["chain", "type/ImageBatch", "type/Image", "type/FlowFields", "type/FlowField", "narrow/negative_dim", "compared_samples", "pyramid/align_corners=None", "pyramid/align_corners=True", "pyramid/align_corners=False", "pyramid/spacing"] + [f"data_transforms/{n}" for n in ("AvgPoolImage", "CenterCropImage", "CenterPadImage", "NarrowImage", "ResampleImage", "ResizeImage", "config")]
 
 
 # ---------------------------------------------------------------------------------------------
@@ -502,6 +502,51 @@ def probe_down_up(ctx):
                 ctx.true("upsample_grid_matches_data", tuple(u.grid().shape) == tuple(u.shape[2:]), key="exc/upsample/fractional-size", size=list(size))
 
 
+def data_transforms(ctx, rng, img):
+    r"""deepali.data.transforms image modules vs the Image methods they wrap."""
+    import torch
+    from deepali.data import transforms as T
+
+    g = img.grid()
+    n = [int(k) for k in g.size()]
+    D = g.ndim
+    ks = int(rng.integers(1, 4))
+    csz = tuple(int(rng.integers(max(k - 3, 3), k + 1)) for k in n)
+    psz = tuple(int(rng.integers(k, k + 4)) for k in n)
+    rsz = tuple(int(rng.integers(max(k // 2, 3), k + 4)) for k in n)
+    sp = float(g.spacing().min()) * float(rng.uniform(0.7, 1.6))
+    st = int(rng.integers(0, img.shape[0]))
+    cases = [
+        ("AvgPoolImage", T.AvgPoolImage(ks), lambda x: x.avg_pool(ks)),
+        ("CenterCropImage", T.CenterCropImage(csz), lambda x: x.center_crop(csz)),
+        ("CenterPadImage", T.CenterPadImage(psz, value=1.5), lambda x: x.center_pad(psz, value=1.5)),
+        ("NarrowImage", T.NarrowImage(0, st, 1), lambda x: x.narrow(0, st, 1)),
+        ("ResampleImage", T.ResampleImage(sp), lambda x: x.resample(sp)),
+        ("ResizeImage", T.ResizeImage(rsz), lambda x: x.resize(rsz)),
+        ("ResizeImage(nearest)", T.ResizeImage(rsz, mode="nearest"), lambda x: x.resize(rsz, mode="nearest")),
+    ]
+    other = img.flip(-1) * 0.5  # a second image of the same type through the same module instance
+    for name, mod, direct in cases:
+        with ctx.guard(f"transforms.{name}", key=f"exc/data_transforms/{name}"):
+            for which, x in (("first", img), ("second", other), ("first_again", img)):
+                got, want = mod(x), direct(x)
+                same = type(got) is type(want) and tuple(got.shape) == tuple(want.shape) and bool(torch.equal(got.tensor(), want.tensor())) and got.grid() == want.grid() and got.grid().align_corners() == want.grid().align_corners()
+                ctx.true("data_transform_equals_image_method", same, key=f"data_transforms/{name}", call=which, got=[type(got).__name__, list(got.shape), repr(got.grid())[:120]], want=[type(want).__name__, list(want.shape), repr(want.grid())[:120]])
+            ctx.bucket(f"data_transforms/{name.split('(')[0]}")
+    with ctx.guard("transforms.image_transforms(config)", key="exc/data_transforms/config"):
+        # the same transforms built from a configuration mapping and applied to a sample dict
+        from deepali.data.transforms.image import image_transforms
+
+        seq = image_transforms({"resize": [list(rsz)], "centercrop": [list(csz)]}, key="img")
+        sample = {"img": img, "other": 3}
+        out = sample
+        for tr in seq:
+            out = tr(out)
+        want = img.resize(rsz).center_crop(csz)
+        ctx.true("configured_item_transforms_equal_methods", bool(torch.equal(out["img"].tensor(), want.tensor())) and out["img"].grid() == want.grid() and out["other"] == 3 and sample["img"] is img, key="data_transforms/config")
+        ctx.bucket("data_transforms/config")
+
+
 def run_item(ctx, item):
     import torch
 
@@ -525,6 +570,23 @@ def run_item(ctx, item):
             continue
         ctx.bucket(f"op/{op}")
         apply_op(ctx, rng, subj, op, desc0, noise=noise)
+    # dataset transforms (deepali.data.transforms): thin modules around the Image methods checked above; each must
+    # return exactly what the method returns (values, grid, flag), also when the module is reused
+    if kind in SINGLE:
+        data_transforms(ctx, rng, subj.batch)
+        # geometry accessors of the data classes are those of the grid
+        img = subj.batch
+        g = img.grid()
+        with ctx.guard("Image accessors", key="exc/accessors"):
+            same = all(bool(torch.equal(getattr(img, a)(), getattr(g, a)())) for a in ("center", "origin", "spacing", "direction"))
+            ctx.true("image_geometry_accessors_are_the_grids", same and img.align_corners() == g.align_corners() and img.cube() == g.cube() and img.domain() == g.domain() and img.sdim == g.ndim, key="accessors/Image")
+    else:
+        b = subj.batch
+        with ctx.guard("ImageBatch accessors", key="exc/accessors"):
+            gs = b.grids()
+            ok = all(bool(torch.equal(getattr(b, a)()[j], getattr(gg, a)())) for a in ("center", "origin", "spacing", "direction") for j, gg in enumerate(gs))
+            ok = ok and [c for c in b.cubes()] == [gg.cube() for gg in gs] and [c for c in b.domains()] == [gg.domain() for gg in gs] and b.nchannels == b.shape[1] and b.sdim == gs[0].ndim
+            ctx.true("batch_geometry_accessors_are_the_grids_in_item_order", ok, key="accessors/ImageBatch")
     # chains of up to three operations
     chain_ops = [o for o in OPS if o not in ("pyramid", "sample_grids")]
     for _ in range(2):
